@@ -43,7 +43,10 @@ def l1(rep, tier):
 
 
 def fxv(x):
-    return int(round(float(x) * FX))
+    x = float(x)
+    if x != x or abs(x) > 1e300:
+        return float("nan")
+    return int(round(x * FX))
 
 
 def rat(x):
@@ -97,6 +100,37 @@ def build_records(pa, rng, tier, rep):
         except Exception as ex:
             rep.violation("dissim.raises", {"exception": repr(ex), "meta": meta})
             return
+        # magnitudes TLC's 32-bit integers cannot carry.  Float pairs of a positional (part) can legitimately be huge (tiny
+        # durations far apart): only within-pair relations are judged on them, so such a pair is rescaled on its own.  A
+        # categorical dissimilarity judged by relations only (ordinal, Levenshtein, user-defined) is rescaled as a whole.
+        # Anything else that large (integer-grid pairs, matrix-based categorical values) contradicts its formula by itself.
+        def bad(x):
+            return x != x
+        if any(bad(x) for o in obs for x in o):
+            rep.violation("dissim.value_not_a_number", {"meta": meta, "delta_empty": de, "alpha": alpha, "beta": beta})
+            return
+        if cls == "cat":
+            top = max([abs(x) for o in obs for x in o] + [0])
+            if top > 40 * FX:
+                if cat in ("abs", "pre"):
+                    rep.violation("dissim.value_out_of_range", {"meta": meta, "largest_value": top / FX, "delta_empty": de})
+                    return
+                k = int(top // (20 * FX)) + 1
+                obs = [tuple(int(round(x / k)) for x in o) for o in obs]
+                meta = dict(meta or {}, rescaled_by=k)
+        else:
+            new_obs = []
+            for (a, b, ex_), o in zip(pairs_spec, obs):
+                top = max(abs(x) for x in o)
+                if top > 2000 * FX:
+                    if ex_:
+                        rep.violation("dissim.value_out_of_range", {"meta": meta, "largest_value": top / FX, "delta_empty": de, "alpha": alpha,
+                                                                    "beta": beta, "pair": [a, b]})
+                        return
+                    k = int(top // (1000 * FX)) + 1
+                    o = tuple(int(round(x / k)) for x in o)
+                new_obs.append(o)
+            obs = new_obs
         floats = sorted({x for a, b, ex_ in pairs_spec if not ex_ for x in (a[0], a[1], b[0], b[1])})
         fidx = {x: i for i, x in enumerate(floats)}
 
@@ -289,6 +323,11 @@ def run(tier, rep):
     rep.traces += len(recs)
     for k, names in verdicts.items():
         r = recs[k]
+        if "ObsLambdaFormula" in names:
+            rep.beyond("dissim.ObsLambdaFormula", {"meta": metas[k], "pairs_head": r["pairs"][:5]})
+            names = set(names) - {"ObsLambdaFormula"}
+            if not names:
+                continue
         rep.violation("dissim." + "+".join(sorted(names)), {"clauses": sorted(names), "meta": metas[k],
                                                             "pairs_head": r["pairs"][:5], "supplied": r["supplied"][:8], "pos": r["pos"][:8]})
     rep.sample({"meta": metas[0], "pairs_head": recs[0]["pairs"][:3]})
